@@ -3,6 +3,7 @@ C10 — Printed digit tables place every digit at its true position.
 -/
 import Sqroot.Proofs.Print
 import Sqroot.Proofs.Fprint
+import Sqroot.Proofs.EndToEnd
 namespace Sqroot.Props.C10
 open Sqroot.Model Sqroot.Proofs
 
@@ -50,5 +51,21 @@ theorem defaults_as_documented :
     Gen.V1.fprintDefaults = ⟨50, 5, true, 46, 0, false, false⟩ ∧
     Gen.V2.fprintDefaults = ⟨50, 5, true, 46, 0, false, false⟩ := by
   decide
+
+/-- end to end (v3 `Fwrite`/`Swrite` on a finite view of `size` digits): the backward step that
+finds the last position, the forward traversal and the printer together write the canonical
+layout of all positions of the view, label width taken from the last position. -/
+theorem fwrite_end_to_end (c : MemoCfg) (m : Memo) (b v : Val3) (chain : List ViewOp) (size : Nat)
+    (s : PSettings) (w : Nat → List Nat → Nat × Bool × Nat) (st : Nat) (hw : Reliable w)
+    (hb : IsBase3 b) (hv : applyChain3 b chain = some v) (hfin : v.assertsFiniteSeq = true)
+    (hsize : Spec.windowSize m.src.len (Spec.winOf (chain.map toSpecOp)) = some size)
+    (hfit : Fits c m.src (Spec.winOf (chain.map toSpecOp)) (size + 1))
+    (hd : ∀ p, m.src.digit p ≤ 9) :
+    let shown := Spec.windowList m.src.len m.src.digit (Spec.winOf (chain.map toSpecOp)) size
+    let endP : Int := match shown.getLast? with | some (p, _) => (p : Int) + 1 | none => 0
+    ∃ r, fwrite3 c m { w := w, st := st } s v size = some (.ok r) ∧
+      r.accepted = Spec.layout (toPOpts .v3 s endP) shown ∧
+      r.written = r.accepted.length ∧ r.err = false :=
+  Sqroot.Proofs.fwrite_end_to_end c m b v chain size s w st hw hb hv hfin hsize hfit hd
 
 end Sqroot.Props.C10
